@@ -189,6 +189,12 @@ func ruleOpenAtMarker(c *Ctx) {
 					if ci, ok := in.(ssa.CallInstruction); ok {
 						if f := ci.Common().StaticCallee(); f != nil && p.InModule(f) {
 							for _, a := range ci.Common().Args {
+								if typeName(deref(a.Type())) == "lineParser" && !helperMovesCursor(p, f, map[*ssa.Function]bool{}) && helperCallsLP(p, f, "Indent", map[*ssa.Function]bool{}) {
+									// a helper that looks at the indentation without moving the cursor: what it returns may be the indent
+									if v, ok := in.(ssa.Value); ok {
+										s.fresh, s.zero = v, false
+									}
+								}
 								if typeName(deref(a.Type())) == "lineParser" && helperMovesCursor(p, f, map[*ssa.Function]bool{}) {
 									if s.phase <= 1 {
 										s.phase = 3
@@ -209,6 +215,9 @@ func ruleOpenAtMarker(c *Ctx) {
 					s.fresh, s.zero = call, false
 				case name == "ConsumeIndent":
 					arg := call.Call.Args[1]
+					if ex, ok := arg.(*ssa.Extract); ok && s.fresh != nil && ex.Tuple == s.fresh {
+						arg = s.fresh
+					}
 					if s.phase == 0 && s.fresh != nil && arg == s.fresh {
 						s.phase = 1
 					} else if s.phase == 4 || s.phase == 5 {
@@ -329,6 +338,36 @@ func ruleOpenAtMarker(c *Ctx) {
 	if c.Count("MARKER-LEN") < 5 {
 		c.Undecided("MARKER-LEN", "instance-count", token.NoPos, fmt.Sprintf("%d marker-description sites found; 5 were confirmed by hand (marker advance, ATX level, setext level, fence character, fence length)", c.Count("MARKER-LEN")))
 	}
+}
+
+// helperCallsLP: f (handed the parser) calls the named lineParser method, directly or through further helpers.
+func helperCallsLP(p *Program, f *ssa.Function, method string, busy map[*ssa.Function]bool) bool {
+	if f == nil || f.Blocks == nil || busy[f] {
+		return false
+	}
+	busy[f] = true
+	found := false
+	eachInstr(f, func(in ssa.Instruction) {
+		if found {
+			return
+		}
+		if call, name := lpCall(in); call != nil {
+			if name == method {
+				found = true
+			}
+			return
+		}
+		if ci, ok := in.(ssa.CallInstruction); ok {
+			if g := ci.Common().StaticCallee(); g != nil && p.InModule(g) {
+				for _, a := range ci.Common().Args {
+					if typeName(deref(a.Type())) == "lineParser" && helperCallsLP(p, g, method, busy) {
+						found = true
+					}
+				}
+			}
+		}
+	})
+	return found
 }
 
 // helperMovesCursor: f (handed the parser) calls, directly or through further helpers, a cursor-moving or
@@ -725,6 +764,14 @@ func ruleStartNonBlank(c *Ctx) {
 				}
 				if _, nm := lpCall(call); nm != "" {
 					return false
+				}
+				// a helper that is handed the parser and looks at the rest of the line
+				if g := call.Call.StaticCallee(); g != nil && p.InModule(g) {
+					for _, a := range call.Call.Args {
+						if typeName(deref(a.Type())) == "lineParser" && (helperCallsLP(p, g, "BytesAfterIndent", map[*ssa.Function]bool{}) || helperCallsLP(p, g, "IsRestBlank", map[*ssa.Function]bool{})) {
+							return true
+						}
+					}
 				}
 			}
 			if in, ok := v.(ssa.Instruction); ok {
